@@ -124,11 +124,14 @@ def replay_relax(model, cls="SinglePhaseReservoir", nx=3):
 
 # ------------------------------------------------------------------ symbolic runs
 
-def _sim(mod, cls, nx, nt, schedule, policy, const_drawdown=True, tdtype="f8"):
+def _sim(mod, cls, nx, nt, schedule, policy, const_drawdown=True, tdtype="f8", repeat_first=False):
     """Run the real simulate once; returns (reservoir, fluid, time array, m_f list)."""
     SS.LinSolve.reset(policy)
     SS.reset_names()
     t, _ = times(nt)
+    if repeat_first:
+        # a non-decreasing grid with a repeated time: t0, t0, t0 + d, ...
+        t = SymArray([t.d[0]] + list(t.d[:-1]), "f8")
     if tdtype != "f8":
         t = SymArray(list(t.d), tdtype)
     if cls == "IdealReservoir":
@@ -340,6 +343,56 @@ def job_reuse(job, nx, how):
         job.prove(f"{tag}/reach[path{k}]", pr.pc, expect="sat", elim=True)
 
 
+def replay_repeat(model, cls="SinglePhaseReservoir", nx=3):
+    """Real run on a grid with a repeated time (t0, t0, t1, t1, t2): finite field inside the bounds."""
+    import numpy as np
+    from bluebonnet.flow import reservoir as rr
+    from .c04 import _real_fluid
+    d = float(model.get("dt1") or 0.01)
+    t = np.array([0.0, 0.0, d, d, 3 * d])
+    with np.errstate(all="ignore"):
+        try:
+            if cls == "IdealReservoir":
+                res, lo, hi = rr.IdealReservoir(max(nx, 5), 1000.0, 8000.0, None), 0.0, 1.0
+            else:
+                fluid = _real_fluid()
+                res, lo, hi = rr.SinglePhaseReservoir(max(nx, 5), 1000.0, 8000.0, fluid), float(fluid.m_scaled_func(1000.0)), float(fluid.m_i)
+            res.simulate(t)
+        except Exception as ex:  # noqa: BLE001
+            return True, {"what": f"{cls}.simulate raised {ex!r} on the non-decreasing grid {t.tolist()}", "inputs": {}}
+    pp = np.asarray(res.pseudopressure, float)
+    bad = bool(not np.all(np.isfinite(pp)) or pp.min() < lo - 1e-9 * hi or pp.max() > hi * (1 + 1e-9) or np.any(np.abs(pp[1] - pp[0]) > 1e-12 * hi))
+    return bad, {"what": f"{cls} on the grid {t.tolist()} with a repeated time: field in [{pp.min()!r}, {pp.max()!r}] (bounds [{lo!r}, {hi!r}]), "
+                         f"level 1 - level 0 up to {np.abs(pp[1] - pp[0]).max()!r}", "inputs": {}}
+
+
+def job_bounds_repeat(job, cls, nx):
+    """'Every non-decreasing time grid' includes repeated times: a zero-length step stores the previous level again
+    (frac-face node at the frac-face value) and the next step obeys the bounds."""
+    job.solve_defaults = {"abstract": True}
+    mod = load_reservoir()
+    job.encoded(mod, f"{cls}.simulate")
+    tag = f"{cls}[nx={nx},grid t0,t0,t0+d]"
+    rp = (replay_repeat, {"cls": cls, "nx": nx})
+    for k, pr in enumerate(paths(job, lambda: _sim(mod, cls, nx, 3, False, policy_exact(), repeat_first=True), [], max_paths=16, catch=(Exception,))):
+        if pr.exc is not None:
+            job.prove(f"{tag}/raises {type(pr.exc).__name__}[path{k}]", pr.pc, bound=f"nx={nx}", replay=rp, note=repr(pr.exc)[:100])
+            continue
+        r, fluid, t, mf = pr.value
+        rows = rows_of(r)
+        lo, hi = _lo_hi(fluid, mf, 2)
+        same = T.b_or(*[T.b_not(T.b_eq0(T.p_sub(P(a), P(b)))) for a, b in zip(rows[1], rows[0])])
+        job.prove(f"{tag}/zero-length step stores the previous level[path{k}]", pr.pc + [same], bound=f"nx={nx}", replay=rp, elim=True, abstract=False)
+        job.prove(f"{tag}/next level within the bounds[path{k}]", pr.pc + [_outside(rows[2], lo, hi)], bound=f"nx={nx}, any d>0", replay=rp)
+        seen = set()
+        for cond, why in pr.ctx.defined:
+            if cond.id in seen or why.startswith("integer overflow"):
+                continue
+            seen.add(cond.id)
+            job.prove(f"{tag}/finite[path{k}][{len(seen)}]", pr.pc + [T.b_not(cond)], bound=f"nx={nx}", replay=rp, note=why[:90], elim=True, abstract=False)
+        job.prove(f"{tag}/reach[path{k}]", pr.pc, expect="sat", elim=True, abstract=False)
+
+
 def job_space(job, cls, nx):
     """Constant drawdown: non-decreasing away from the fracture (invariant with the bounds)."""
     job.solve_defaults = {"abstract": True}
@@ -506,6 +559,8 @@ def jobs(tier):
         for nx in ((3, 4) if tier == "quick" else (3, 4, 6, 8)):
             out.append((f"fixed-{cls[:6]}-{nx}", lambda j, c=cls, n=nx: job_fixed_point(j, c, n)))
     out.append(("bounds-inttime-3", lambda j: job_bounds_inttime(j, 3)))
+    for cls in ("SinglePhaseReservoir", "IdealReservoir"):
+        out.append((f"repeat-{cls[:6]}-3", lambda j, c=cls: job_bounds_repeat(j, c, 3)))
     out.append(("reuse-field-3", lambda j: job_reuse(j, 3, "field")))
     out.append(("reuse-schedule-3", lambda j: job_reuse(j, 3, "schedule")))
     for nx in ((3, 5, 8) if tier == "quick" else (3, 4, 5, 6, 7, 8, 12, 20)):
